@@ -416,61 +416,127 @@ func (t *Term) String() string {
 // Eval evaluates t under a model (variable name -> value).  Unassigned
 // variables evaluate to 0.
 func (t *Term) Eval(m map[string]uint64) uint64 {
+	return t.eval(func(v *Term) uint64 { return m[v.name] })
+}
+
+func (t *Term) eval(env func(*Term) uint64) uint64 {
 	switch t.op {
 	case OpConst:
 		return t.val
 	case OpVar:
-		return m[t.name] & mask(t.w) | bool2u(t.w == 0 && m[t.name] != 0)
-	}
-	ts := NewTerms()
-	var sub [3]*Term
-	for i, x := range []*Term{t.a, t.b, t.c} {
-		if x != nil {
-			sub[i] = ts.Const(x.Eval(m), x.w)
-			if x.w == 0 {
-				sub[i] = ts.Bool(x.Eval(m) != 0)
-			}
+		v := env(t)
+		if t.w == 0 {
+			return bool2u(v != 0)
 		}
+		return v & mask(t.w)
 	}
-	var r *Term
+	var x, y, z uint64
+	if t.a != nil {
+		x = t.a.eval(env)
+	}
+	if t.b != nil {
+		y = t.b.eval(env)
+	}
+	if t.c != nil {
+		z = t.c.eval(env)
+	}
+	w := t.w
+	if t.a != nil && t.a.w != 0 && (t.op >= OpULt && t.op <= OpSLe || t.op == OpEq) {
+		w = t.a.w
+	}
+	m := mask(w)
 	switch t.op {
 	case OpNot:
-		r = ts.Not(sub[0])
+		return bool2u(x == 0)
 	case OpAnd:
-		r = ts.And(sub[0], sub[1])
+		return bool2u(x != 0 && y != 0)
 	case OpOr:
-		r = ts.Or(sub[0], sub[1])
+		return bool2u(x != 0 || y != 0)
 	case OpEq:
-		r = ts.Eq(sub[0], sub[1])
+		return bool2u(x == y)
 	case OpIte:
-		r = ts.Ite(sub[0], sub[1], sub[2])
-	case OpNeg, OpBNot:
-		r = ts.Un(t.op, sub[0])
-	case OpZExt:
-		r = ts.Resize(sub[0], t.w, false)
-	case OpSExt:
-		r = ts.Resize(sub[0], t.w, true)
-	case OpExtract:
-		r = ts.Resize(sub[0], t.w, false)
-	default:
-		r = ts.Bin(t.op, sub[0], sub[1])
-	}
-	if !r.IsConst() {
-		// division by zero: SMT-LIB semantics
-		switch t.op {
-		case OpUDiv:
-			return mask(t.w)
-		case OpURem, OpSRem:
-			return sub[0].val
-		case OpSDiv:
-			if sext(sub[0].val, t.a.w) < 0 {
+		if x != 0 {
+			return y
+		}
+		return z
+	case OpAdd:
+		return (x + y) & m
+	case OpSub:
+		return (x - y) & m
+	case OpMul:
+		return (x * y) & m
+	case OpUDiv:
+		if y == 0 {
+			return m
+		}
+		return x / y
+	case OpURem:
+		if y == 0 {
+			return x
+		}
+		return x % y
+	case OpSDiv:
+		sx, sy := sext(x, w), sext(y, w)
+		if sy == 0 {
+			if sx < 0 {
 				return 1
 			}
-			return mask(t.w)
+			return m
 		}
-		panic("Eval: non-constant result for " + t.String())
+		if sy == -1 {
+			return uint64(-sx) & m
+		}
+		return uint64(sx/sy) & m
+	case OpSRem:
+		sx, sy := sext(x, w), sext(y, w)
+		if sy == 0 {
+			return x
+		}
+		if sy == -1 {
+			return 0
+		}
+		return uint64(sx%sy) & m
+	case OpBAnd:
+		return x & y
+	case OpBOr:
+		return x | y
+	case OpBXor:
+		return x ^ y
+	case OpShl:
+		if y >= uint64(w) {
+			return 0
+		}
+		return (x << y) & m
+	case OpLShr:
+		if y >= uint64(w) {
+			return 0
+		}
+		return x >> y
+	case OpAShr:
+		if y >= uint64(w) {
+			y = uint64(w) - 1
+		}
+		return uint64(sext(x, w)>>y) & m
+	case OpNeg:
+		return (-x) & m
+	case OpBNot:
+		return (^x) & m
+	case OpULt:
+		return bool2u(x < y)
+	case OpULe:
+		return bool2u(x <= y)
+	case OpSLt:
+		return bool2u(sext(x, w) < sext(y, w))
+	case OpSLe:
+		return bool2u(sext(x, w) <= sext(y, w))
+	case OpZExt:
+		return x
+	case OpSExt:
+		return uint64(sext(x, t.a.w)) & mask(t.w)
+	case OpExtract:
+		return x & mask(t.w)
 	}
-	return r.val
+	panic("eval: bad op")
 }
 
 func bool2u(b bool) uint64 {
